@@ -357,15 +357,37 @@ theorem guardFSqrt_iff (W : Nat) (a : FArg) (k : Kind) (hc : a.canonical) (hm : 
       rw [this]
 
 /-- `FBig::ulp` -/
-theorem guardFUlp_iff (W : Nat) (a : FArg) (k : Kind) (hc : a.canonical) (hm : a.moderate) :
+theorem guardFUlp_iff (W : Nat) (a : FArg) (k : Kind) (hc : a.canonical) (hm : a.moderate) (hp : a.prec ≤ 2 ^ 62) :
     guardFUlp a = .error k ↔ documented W .fUlp [.flt a] = some k := by
   have hv : verdict W .fUlp [.flt a] =
       if ¬ a.canonical then none else if ¬ a.moderate then some .unspecified
-      else some (firstOf [(a.prec = 0, .unlimitedPrecision)]) := rfl
+      else some (firstOf [(a.prec = 0, .unlimitedPrecision),
+                          (¬ a.isInf ∧ a.exp + (a.digits : Int) - (a.prec : Int) < isizeMin, .exponentOverflow)]) := rfl
   rw [documented_iff, hv, if_neg (by simpa using hc), if_neg (by simpa using hm)]
   unfold guardFUlp
   rw [err_iff]
-  simp only [Option.some.injEq, firstOf_one, decide_eq_true_eq]
+  -- with |exp| ≤ 2^61 and precision ≤ 2^62 the exponent of the ulp cannot leave isize
+  have hno : (decide (¬ a.isInf = true ∧ a.exp + (a.digits : Int) - (a.prec : Int) < isizeMin)) = false := by
+    rw [decide_eq_false_iff_not]
+    intro ⟨hfin, hlt⟩
+    unfold FArg.moderate at hm
+    simp only [Bool.or_eq_true, Bool.and_eq_true, decide_eq_true_eq] at hm
+    rcases hm with hinf | ⟨h1, _⟩
+    · exact hfin hinf
+    · have : isizeMin = -(2 ^ 63) := rfl
+      rw [this] at hlt
+      have hd : (0 : Int) ≤ (a.digits : Int) := Int.natCast_nonneg _
+      have hp' : (a.prec : Int) ≤ 2 ^ 62 := by exact_mod_cast hp
+      omega
+  simp only [Option.some.injEq, firstOf, hno]
+  by_cases h0 : a.prec = 0 <;> simp [h0]
+
+/-- the hypothesis on the precision is needed: at precision 2^63 the ulp of 3·2^-5 is 2^(-3 − 2^63), below the exponent range
+    (documented: ExponentOverflow); `FBig::ulp` checks nothing (`precision as isize`, unchecked subtraction) -/
+theorem guardFUlp_counterexample :
+    guardFUlp ⟨2, 3, -5, 2 ^ 63, 'Z'⟩ = .ok () ∧
+    documented 64 .fUlp [.flt ⟨2, 3, -5, 2 ^ 63, 'Z'⟩] = some .exponentOverflow := by
+  constructor <;> decide +kernel
 
 -- ---- guards added by the fix: commits c27ca7f, 65edb1e, 0ffa05d, d9f681e, b0e87a3
 
